@@ -37,6 +37,17 @@ func registerHarnessFormats() {
 			}
 			return nil
 		}))
+		// a validator built from the library's own ones that wraps their error (errors.As finds the schema error inside)
+		v4, v6 := openapi3.NewIPValidator(true), openapi3.NewIPValidator(false)
+		openapi3.DefineStringFormatValidator("vx-ip-any", openapi3.NewCallbackValidator(func(s string) error {
+			if v4.Validate(s) == nil {
+				return nil
+			}
+			if err := v6.Validate(s); err != nil {
+				return fmt.Errorf("neither an IPv4 nor an IPv6 address: %w", err)
+			}
+			return nil
+		}))
 		openapi3.DefineIntegerFormatValidator("vx-small", openapi3.NewRangeFormatValidator(int64(-2), int64(2)))
 		openapi3.DefineIPv4Format()
 		openapi3.DefineIPv6Format()
@@ -48,7 +59,7 @@ func registerHarnessFormats() {
 // extAtoms: fragments beyond C01's keyword set: formats, hostile patterns, ill-formed bounds.
 func extAtoms() []gen.S {
 	var a []gen.S
-	for _, f := range []string{"date", "date-time", "byte", "email", "uuid", "ipv4", "ipv6", "vx-evenlen", "password", "unknown-format"} {
+	for _, f := range []string{"date", "date-time", "byte", "email", "uuid", "ipv4", "ipv6", "vx-evenlen", "vx-ip-any", "password", "unknown-format"} {
 		a = append(a, gen.S{"type": "string", "format": f}, gen.S{"format": f})
 	}
 	for _, f := range []string{"int32", "int64", "vx-small"} {
